@@ -52,7 +52,10 @@ JudgeProbes(e) ==
   LET q == e.pr
       m == Len(q.so)
       C1(name, T) == IF T = {} THEN "" ELSE name \o ":" \o ToString(SetMin(T)) \o "|"
-      C(name, T) == C1(name \o "@split", {i \in T : Group(q.kind[i]) = "split"})
+      \* polygons farther than 3e5 from the origin: a few ulps of a coordinate exceed the clipper's absolute 1e-9
+      \* tolerance, pieces are dropped from the quadtree (recorded limitation): kept apart as "@far"
+      C(name, T) == IF e.far = 1 THEN C1(name \o "@far", T) ELSE
+                    C1(name \o "@split", {i \in T : Group(q.kind[i]) = "split"})
                     \o C1(name \o "@vlevel", {i \in T : Group(q.kind[i]) = "vlevel"})
                     \* ordinary points: when a vertex of the polygon lies in the 1e-9 snapping band of a split line
                     \* the quadtree double-counts or drops that edge and whole regions get the wrong sign
@@ -65,6 +68,8 @@ JudgeProbes(e) ==
       bfs == {i \in 1..m : q.dfs[i] > TolE12}
       say(ok, why) == IF ok THEN TRUE ELSE (PrintT(<<"BAD", l, why>>) /\ FALSE)
   IN /\ say(Len(q.sf) = m /\ Len(q.ss) = m /\ Len(q.ef) = m /\ Len(q.es) = m /\ Len(q.dfs) = m, "machinery:probe-lengths")
+     \* a simple polygon must be accepted by all three constructors
+     /\ say(e.cerr = 0, "pctor-error:1|")
      /\ say(bsf \cup bss \cup bvf \cup bvs \cup bfs = {},
             C("psign-slow", bss) \o C("psign-fast", bsf) \o C("pdist-fast", bvf) \o C("pdist-slow", bvs)
             \o C("pfast-vs-slow", bfs))
